@@ -86,22 +86,22 @@ func shortUUID(u string) string {
 // ---------------------------------------------------------------- constructor evaluation
 
 type charCtor struct {
-	Name      string // constructor name without "New"
-	Pos       token.Pos
-	Base      string // Int, Float, Bool, String, Bytes
-	TypeIdent string // identifier passed to the base constructor
-	TypeValue string
-	Format    string
-	FormatSet bool
-	Perms     []string
-	PermsSet  bool
-	Unit      string
+	Name           string // constructor name without "New"
+	Pos            token.Pos
+	Base           string // Int, Float, Bool, String, Bytes
+	TypeIdent      string // identifier passed to the base constructor
+	TypeValue      string
+	Format         string
+	FormatSet      bool
+	Perms          []string
+	PermsSet       bool
+	Unit           string
 	Min, Max, Step constant.Value
-	Default   constant.Value
-	DefaultBytes bool // SetValue([]byte{})
-	HasDefault bool
-	Problems  []string // unrecognised statement forms -> UNDECIDED
-	Wrapper   string   // type returned
+	Default        constant.Value
+	DefaultBytes   bool // SetValue([]byte{})
+	HasDefault     bool
+	Problems       []string // unrecognised statement forms -> UNDECIDED
+	Wrapper        string   // type returned
 }
 
 type svcCtor struct {
@@ -659,7 +659,9 @@ func c15r1(c *core.Ctx) {
 				}
 			}
 		})
-		pure := returnsOnly(f, func(sv ssa.Value) bool { return sv == ssa.Value(val) || (minV != nil && sv == minV) || (maxV != nil && sv == maxV) })
+		pure := returnsOnly(f, func(sv ssa.Value) bool {
+			return sv == ssa.Value(val) || (minV != nil && sv == minV) || (maxV != nil && sv == maxV)
+		})
 		c.Check(pure, "helper-passes:"+name, f.Pos(), "returns only the value, the minimum or the maximum: a default inside its bounds is stored as written in the constructor",
 			name+" computes its result from the value (arithmetic after clamping): the default value an object holds is not the constant its constructor names and can leave the declared range")
 	}
